@@ -4,6 +4,9 @@
 -/
 import NxsModel.Driver.Frame
 import NxsModel.Driver.Codec
+import NxsModel.Driver.Info
+import NxsModel.Driver.Record
+import NxsModel.Driver.Pad
 import NxsModel.Driver.Stream
 import NxsModel.Driver.Reasm
 import NxsModel.Driver.Config
@@ -22,9 +25,10 @@ def dispatch (toks : List String) : String :=
   | "frame" :: rest => (frameOp rest).getD "bad-op"
   | "recv" :: rest => (recvOp rest).getD "bad-op"
   | "req" :: rest => (reqOp rest).getD "bad-op"
-  | "info" :: rest => (infoOp rest).getD "bad-op"
+  | "info" :: rest => (infoOpX rest).getD "bad-op"
   | "pad" :: rest => (padOp rest).getD "bad-op"
-  | "rec" :: rest => (recOp rest).getD "bad-op"
+  | "padreq" :: rest => (padReqOp rest).getD "bad-op"
+  | "rec" :: rest => (recordOp rest).getD "bad-op"
   | "stream" :: rest => (streamOp rest).getD "bad-op"
   | "reasm" :: rest => (reasmOp rest).getD "bad-op"
   | "cfg" :: rest => (cfgOp rest).getD "bad-op"
